@@ -1,10 +1,10 @@
 //! C15 — scalar operations on segments and piecewise functions preserve breakpoints and apply
 //! the operation to every piece exactly as to the function alone.
 
-use crate::flat::*;
-use crate::gen::*;
-use crate::mon::*;
-use crate::probe::*;
+use ppv::flat::*;
+use ppv::gen::*;
+use ppv::mon::*;
+use ppv::probe::*;
 use piecewise_polynomial::*;
 use serde_json::json;
 
